@@ -164,7 +164,7 @@ def input_size(case):
     if p and p[0] in ("annexbig", "accumbig"):
         # sizes on the command line, bytes made inside the harness: d<n> / z<n> tokens, or size lists "a/b:end"
         import re
-        n += sum(int(x) for x in re.findall(r"(?:^|[,/dz])(\d+)", p[2] if p[0] == "annexbig" else p[1]))
+        n += sum(int(x) for x in re.findall(r"(?:^|[,/dzD])(\d+)", p[2] if p[0] == "annexbig" else p[1]))
     return n
 
 
